@@ -649,6 +649,15 @@ func projectField(base *Term, idx int, f *types.Var) *Term {
 // countedIndex: ph is the counter of `for i := 0; i < len(x) [&& …]; i++`: φ(0, φ+1) in a block
 // that branches on φ < len(x). Returns x.
 func countedIndex(ph *ssa.Phi) ssa.Value {
+	// the rotated form go/ssa gives `for i := range len(x)`
+	if n, ok := rotatedCounted(ph); ok {
+		if c, isCall := n.(*ssa.Call); isCall {
+			if bi, isB := c.Common().Value.(*ssa.Builtin); isB && bi.Name() == "len" {
+				return c.Common().Args[0]
+			}
+		}
+		return nil
+	}
 	zeros, incs := 0, 0
 	for _, e := range ph.Edges {
 		if k, ok := e.(*ssa.Const); ok && k.Value != nil && k.Value.ExactString() == "0" {
@@ -700,6 +709,63 @@ func countedIndex(ph *ssa.Phi) ssa.Value {
 		return nil
 	}
 	return c.Common().Args[0]
+}
+
+// rotatedCounted: ph is the counter of go/ssa's lowering of `for i := range n` — φ(0, φ+1) at the
+// top of the body, entered only under `0 < n` and repeated only under `φ+1 < n`, the same n, which
+// is computed before the loop. Inside the loop 0 ≤ φ < n. Returns n.
+func rotatedCounted(ph *ssa.Phi) (ssa.Value, bool) {
+	h := ph.Block()
+	if h == nil || len(ph.Edges) != len(h.Preds) || len(h.Preds) < 2 {
+		return nil, false
+	}
+	var bound ssa.Value
+	entries, backs := 0, 0
+	for i, e := range ph.Edges {
+		p := h.Preds[i]
+		br, ok := p.Instrs[len(p.Instrs)-1].(*ssa.If)
+		if !ok || len(p.Succs) != 2 || p.Succs[0] != h {
+			return nil, false
+		}
+		cmp, ok := br.Cond.(*ssa.BinOp)
+		if !ok || cmp.Op != token.LSS {
+			return nil, false
+		}
+		if bound != nil && cmp.Y != bound {
+			return nil, false
+		}
+		bound = cmp.Y
+		if k, isK := e.(*ssa.Const); isK {
+			if k.Value == nil || k.Value.ExactString() != "0" {
+				return nil, false
+			}
+			k2, isK2 := cmp.X.(*ssa.Const)
+			if !isK2 || k2.Value == nil || k2.Value.ExactString() != "0" {
+				return nil, false
+			}
+			entries++
+			continue
+		}
+		bo, ok := e.(*ssa.BinOp)
+		if !ok || bo.Op != token.ADD || bo.X != ssa.Value(ph) || cmp.X != ssa.Value(bo) {
+			return nil, false
+		}
+		if one, ok := bo.Y.(*ssa.Const); !ok || one.Value == nil || one.Value.ExactString() != "1" {
+			return nil, false
+		}
+		if !h.Dominates(p) {
+			return nil, false
+		}
+		backs++
+	}
+	if entries != 1 || backs < 1 || bound == nil {
+		return nil, false
+	}
+	// n is computed before the loop
+	if in, ok := bound.(ssa.Instruction); ok && in.Block() != nil && h.Dominates(in.Block()) {
+		return nil, false
+	}
+	return bound, true
 }
 
 func rangeLoopOf(idx ssa.Value) *ssa.Phi {
@@ -1366,7 +1432,32 @@ func (c *Ctx) callTerm(call *ssa.Call) *Term {
 	}
 	// call of a function value
 	fv := c.Term(cc.Value)
-	return &Term{Kind: "call", Name: "(" + fv.String() + ")", Fn: fv.Fn, Args: args, ID: c.instrID(call), Typ: call.Type()}
+	// … that an inlined context binds to a function without captured variables whose body is one
+	// effect-free expression (`func(a, b int64) int64 { return a + b }` handed to a helper as "the
+	// operation"): the expression over the arguments
+	if f := fv.Fn; fv.Kind == "func" && f != nil && f.Blocks != nil && len(f.Blocks) == 1 && len(f.FreeVars) == 0 && c.depth < c.maxD && f != c.fn && (isInteger(call.Type()) || isFloat64(call.Type())) {
+		if r, ok := f.Blocks[0].Instrs[len(f.Blocks[0].Instrs)-1].(*ssa.Return); ok && len(r.Results) == 1 {
+			pure := true
+			for _, in := range f.Blocks[0].Instrs {
+				switch y := in.(type) {
+				case *ssa.Store:
+					if _, isAlloc := baseOfAddr(y.Addr).(*ssa.Alloc); !isAlloc {
+						pure = false
+					}
+				case *ssa.Defer, *ssa.Go, *ssa.Panic, *ssa.MapUpdate, *ssa.Send:
+					pure = false
+				case *ssa.Call:
+					if _, isB := y.Common().Value.(*ssa.Builtin); !isB {
+						pure = false
+					}
+				}
+			}
+			if pure {
+				return c.child(f, call, args).Term(r.Results[0])
+			}
+		}
+	}
+	return &Term{Kind: "call", Name: "(" + fv.String() + ")", Fn: fv.Fn, Args: args, ID: c.instrID(call), Typ: call.Type(), Val: call}
 }
 
 func lenOf(kind string, x *Term) *Term {
@@ -1735,7 +1826,11 @@ func (c *Ctx) edgeCond(p, b *ssa.BasicBlock) *Formula {
 		// leaving a range loop through its header ("the traversal is over") always happens: it is not a
 		// condition on the state the code after the loop runs in
 		for _, l := range loopsOf(p.Parent()) {
-			if l.Header == p && l.IsRange() && !l.Blocks[b] {
+			if l.IsRange() && !l.Blocks[b] && l.exhaustionExit(p) && (l.Header == p || l.Rotated) {
+				return FTrue
+			}
+			// … and so is entering or skipping a rotated integer range (`0 < n` before the loop)
+			if l.Rotated && l.IsRange() && !l.Blocks[p] && p.Succs[0] == l.Header && len(p.Succs) == 2 && b == p.Succs[1] {
 				return FTrue
 			}
 		}
